@@ -229,9 +229,13 @@ func gen(args []string) {
 			os.Exit(2)
 		}
 		lines := strings.Split(strings.TrimRight(string(data), "\n"), "\n")
+		stride := 1
+		if *n > 0 && len(lines) > *n {
+			stride = len(lines) / *n // an even sample of the corpus, not its first n lines
+		}
 		for i, l := range lines {
-			if *n > 0 && i >= *n {
-				break
+			if i%stride != 0 {
+				continue
 			}
 			toks := tokenTexts([]byte(l))
 			for k := 1; k < len(toks); k++ {
